@@ -157,7 +157,7 @@ func (e histEngine) FaultKinds() []string {
 }
 func (e histEngine) Probes() []string {
 	if e.id == "C06" {
-		return []string{"ipv6_origin_round_trip", "wildcard_port_round_trip", "star_mixed_round_trip", "trailing_dot_round_trip", "twins_compared", "config_idempotent_checked"}
+		return []string{"ipv6_origin_round_trip", "wildcard_port_round_trip", "star_mixed_round_trip", "trailing_dot_round_trip", "twins_compared", "config_idempotent_checked", "caller_edits_the_config_value_it_fed_back"}
 	}
 	return []string{"rejected_differs_from_current", "before_after_compared", "shadow_twin_compared"}
 }
@@ -398,6 +398,31 @@ func (e histEngine) f2(p *HistPlan, m *cors.Middleware, cur int, kind, label str
 		}
 		if d := diffObs(before, after3, suite, false); d != "" {
 			return &Violation{Class: "restore-changed-behaviour", Key: key, Detail: label + " (after three round trips): " + d}
+		}
+		// the caller owns what Config() returned ("a deep copy"): it fed the value back and now
+		// edits it in place (narrows every list to one value of its own). Neither the
+		// round-tripped middleware nor the next Config() may notice.
+		if own := m.Config(); own != nil {
+			fed := m.Config()
+			if err := m.Reconfigure(fed); err != nil {
+				return &Violation{Class: "restore-rejected", Key: cfgStr(own), Detail: fmt.Sprintf("%s: fourth m.Reconfigure(m.Config()) failed with %q", label, err)}
+			}
+			for _, l := range [][]string{fed.Origins, fed.Methods, fed.RequestHeaders, fed.ResponseHeaders} {
+				for i := range l {
+					l[i] = "https://narrowed-by-the-caller.example.org"
+				}
+			}
+			c.hit("caller_edits_the_config_value_it_fed_back")
+			after4, pan := observeMW(m, suite)
+			if pan != "" {
+				return &Violation{Class: "panic", Key: "observe", Detail: label + ": " + pan}
+			}
+			if d := diffObs(before, after4, suite, false); d != "" {
+				return &Violation{Class: "restore-changed-behaviour", Key: key, Detail: label + " (after the caller edited, in place, the Config() value it had fed back): " + d}
+			}
+			if c4 := m.Config(); !reflect.DeepEqual(own, c4) {
+				return &Violation{Class: "config-not-fixpoint", Key: cfgStr(own), Detail: fmt.Sprintf("%s: Config() was %s; after the caller edited the value it had fed back it is %s", label, cfgStr(own), cfgStr(c4))}
+			}
 		}
 	case "restart":
 		c.hit("F2_restart")
